@@ -18,7 +18,7 @@ ASSUMPTIONS = ["numpy.linalg.svd in float64 is the trusted reference",
                "randomized_svd asserted only when n_eigenvecs + n_oversamples covers the numerical rank",
                "masked SVD (imputation loop) is not part of the statement and is not exercised"]
 METHODS = ["truncated_svd", "symeig_svd", "randomized_svd", "callable", "direct_truncated"]
-CLASSES = ["generic", "rankdef", "repeated", "integer", "nonneg", "diag", "generic", "balanced-signs", "symmetric-singular"]
+CLASSES = ["generic", "rankdef", "repeated", "integer", "nonneg", "diag", "generic", "balanced-signs", "symmetric-singular", "graded"]
 
 
 def plan(tier, seed):
@@ -51,6 +51,12 @@ def make_matrix(rs, cls, d1, d2, dt):
         D = np.zeros((d1, d2))
         D[np.arange(m), np.arange(m)] = sv
         M = Q1 @ D @ Q2
+    elif cls == "graded":
+        # low rank with a steeply graded spectrum (1, 1e-2, 1e-4, ...): power iterations without re-orthonormalisation lose the tail
+        r = int(rs.randint(1, min(m, 5) + 1))
+        Q1 = np.linalg.qr(rs.standard_normal((d1, r)))[0]
+        Q2 = np.linalg.qr(rs.standard_normal((d2, r)))[0]
+        M = (Q1 * (10.0 ** (-float(rs.choice([0.5, 1, 2])) * np.arange(r)))) @ Q2.T
     elif cls == "integer":
         M = rs.randint(-3, 4, size=(d1, d2)).astype(float)
     elif cls == "nonneg":
@@ -173,7 +179,7 @@ def run_case(case, ctx):
     if method == "randomized_svd":
         kw = {"random_state": seed}
         # the documented tuning knobs: power iterations (0 = none) and oversampling
-        ni = gen.choice(rs, [None, None, 0, 1, 4])
+        ni = gen.choice(rs, [None, None, 0, 1, 4, 8])
         if ni is not None:
             kw["n_iter"] = int(ni)
         if rs.rand() < 0.3:
